@@ -405,13 +405,10 @@ func ruleC05(c *Ctx) {
 			// joint truth table over the 9 orderings of (now vs NotBefore, now vs NotOnOrAfter): the warning is raised
 			// exactly when now < NotBefore or now >= NotOnOrAfter. (A per-bound table would misjudge `if early || late`,
 			// where the second comparison is not evaluated once the first is true.)
+			// decided on the final state of the returned summary (however it was assembled)
 			raised := func(t *Terminal) bool {
-				for _, e := range storesToField(t, "InvalidTime") {
-					if b, ok := constBool(e.Val); ok && b {
-						return true
-					}
-				}
-				return false
+				b, _ := finalFlag(t, "InvalidTime")
+				return b
 			}
 			for _, o1 := range []int{-1, 0, 1} {
 				for _, o2 := range []int{-1, 0, 1} {
@@ -450,15 +447,10 @@ func ruleC05(c *Ctx) {
 				}
 			}
 			checkOperands(c, "C05-R2", fname, acc, []string{"A.Conditions.NotBefore", "A.Conditions.NotOnOrAfter"})
-			// InvalidTime is only ever stored true, and only under a time-comparison guard
+			// the final value of the flag is a constant on every accepting path (no data-dependent expression)
 			for _, t := range acc {
-				for _, e := range storesToField(t, "InvalidTime") {
-					b, ok := constBool(e.Val)
-					g, gok := guardBefore(t, e)
-					_, isT := isTimeCmpFact(g)
-					c.check(ok && b && gok && isT, "C05-R1/sticky", fname, "store WarningInfo.InvalidTime", c.P.InstrPos(e.Instr),
-						"stored true under a clock comparison", "InvalidTime is stored "+ap(e.Val)+" outside a clock comparison (guard: "+atom(g)+")")
-				}
+				_, known := finalFlag(t, "InvalidTime")
+				c.check(known, "C05-R1/sticky", fname, "WarningInfo.InvalidTime is decided by the comparisons alone", c.P.InstrPos(t.Instr), "constant on the path", "the returned InvalidTime is not a constant of the path (it depends on something other than the clock comparisons)")
 			}
 		}
 	}
@@ -559,13 +551,9 @@ func ruleC06(c *Ctx) {
 		}
 		atoms := t.atoms()
 		pos := c.P.InstrPos(t.Instr)
-		stored := false
-		for _, e := range storesToField(t, "NotInAudience") {
-			b, ok := constBool(e.Val)
-			if !ok || !b {
-				c.bad("C06-R1", fname, "store WarningInfo.NotInAudience", c.P.InstrPos(e.Instr), "NotInAudience stored "+ap(e.Val)+" (only `true` may ever be stored)")
-			}
-			stored = true
+		stored, known := finalFlag(t, "NotInAudience")
+		if !known {
+			c.bad("C06-R1", fname, "WarningInfo.NotInAudience is decided by the audience comparisons alone", pos, "the returned NotInAudience is not a constant of the path")
 		}
 		// any fact mentioning an audience value must be the exact match atom
 		for a := range atoms {
@@ -612,19 +600,15 @@ func ruleC06(c *Ctx) {
 		}
 		atoms := t.atoms()
 		pos := c.P.InstrPos(t.Instr)
-		otu := false
+		otu, otuKnown := finalFlag(t, "OneTimeUse")
 		otuExpr := false
-		for _, e := range storesToField(t, "OneTimeUse") {
-			if strings.HasPrefix(apLval(e.Addr), "new<complit>") {
-				b, ok := constBool(e.Val)
-				otu = otu || (ok && b)
-				// the flag may also be assigned the presence test itself
-				if v := ap(e.Val); v == "(A.Conditions.OneTimeUse != nil)" || v == "!(A.Conditions.OneTimeUse == nil)" {
+		if !otuKnown {
+			// the flag may also be assigned the presence test itself
+			if fv, st := t.finalFieldState(t.Vals[0], "OneTimeUse"); st == "stored" {
+				if v := ap(fv); v == "(A.Conditions.OneTimeUse != nil)" || v == "!(A.Conditions.OneTimeUse == nil)" {
 					otuExpr = true
-					continue
-				}
-				if !ok || !b {
-					c.bad("C06-R3", fname, "store WarningInfo.OneTimeUse", c.P.InstrPos(e.Instr), "OneTimeUse stored "+ap(e.Val))
+				} else {
+					c.bad("C06-R3", fname, "store WarningInfo.OneTimeUse", pos, "OneTimeUse is "+ap(fv))
 				}
 			}
 		}
@@ -780,4 +764,21 @@ func accumulated(t *Terminal, atoms map[string]bool, v Val, src, elem string) (o
 		return false, nn, "the signed list " + src + " is never iterated"
 	}
 	return true, nn, ""
+}
+
+// finalFlag: final value of boolean field <name> of the object returned by t. known=false when it is not a constant of
+// the path; an untouched field of a fresh allocation is false.
+func finalFlag(t *Terminal, name string) (val bool, known bool) {
+	if len(t.Vals) == 0 {
+		return false, false
+	}
+	v, st := t.finalFieldState(t.Vals[0], name)
+	switch st {
+	case "zero":
+		return false, true
+	case "stored":
+		b, ok := constBool(v)
+		return b, ok
+	}
+	return false, false
 }
